@@ -46,6 +46,8 @@ pub enum Op {
     Validate { times: usize },
     /// the caller thread does unrelated work first: parses `n` distinct contents in a throwaway parser
     Warmup { n: usize },
+    /// `n` times remove_content of an id that was never added (cheap mutations: counters, generations)
+    RemoveAbsentMany { n: usize },
     /// the file changes on disk (the parser must not notice until told); `tail` = raw bytes appended
     DiskWrite {
         path: String,
@@ -68,6 +70,7 @@ impl Op {
             Op::Remove { .. } => "remove_content",
             Op::Validate { .. } => "validate",
             Op::Warmup { .. } => "warmup",
+            Op::RemoveAbsentMany { .. } => "remove_absent_many",
             Op::DiskWrite { .. } => "disk_write",
             Op::AddFile { .. } => "add_file",
         }
@@ -140,6 +143,7 @@ pub fn to_json(s: &HistScenario) -> J {
                             Op::Remove { path } => o.put("path", J::s(path.clone())),
                             Op::Validate { times } => o.put("times", J::u(*times as u64)),
                             Op::Warmup { n } => o.put("n", J::u(*n as u64)),
+                            Op::RemoveAbsentMany { n } => o.put("n", J::u(*n as u64)),
                             Op::DiskWrite { path, content, tail } => {
                                 o.put("path", J::s(path.clone()));
                                 o.put("text", J::s(content.text()));
@@ -205,6 +209,9 @@ pub fn from_json(j: &J) -> Result<HistScenario, String> {
             Some("remove_content") => Op::Remove { path: path()? },
             Some("validate") => Op::Validate {
                 times: st.get("times").and_then(|t| t.as_u64()).unwrap_or(1) as usize,
+            },
+            Some("remove_absent_many") => Op::RemoveAbsentMany {
+                n: st.get("n").and_then(|t| t.as_u64()).unwrap_or(0) as usize,
             },
             Some("warmup") => Op::Warmup {
                 n: st.get("n").and_then(|t| t.as_u64()).unwrap_or(0) as usize,
@@ -401,6 +408,11 @@ fn rewrite_keeping_facts(rng: &mut Rng, st: &mut GenState, d: &Doc, what: usize)
             (fresh, "rewrite_all_keeping_key_kind")
         }
     }
+}
+
+/// The path a source tree would give this document: src/<package as directories>/<Name>.aidl
+fn layout_path(c: &Content) -> Option<String> {
+    c.as_doc().map(|d| format!("src/{}/{}.aidl", d.pkg.replace('.', "/"), d.name))
 }
 
 fn gen_plan(rng: &mut Rng, bytes: &[u8], enabled: &[bool; 8], p_fault: u32) -> (FaultPlan, &'static str) {
@@ -662,6 +674,7 @@ pub fn generate(rng: &mut Rng, prop: Prop, thorough: bool) -> (HistScenario, Str
         *e = rng.pct(65);
     }
     let passthrough_run = files_enabled && rng.pct(if thorough { 8 } else { 5 });
+    let p_layout: u32 = if passthrough_run { 80 } else { *rng.pick(&[0u32, 0, 30]) };
     let mut st = GenState {
         u,
         gk,
@@ -699,11 +712,55 @@ pub fn generate(rng: &mut Rng, prop: Prop, thorough: bool) -> (HistScenario, Str
     };
     if big {
         // fill the table, then (mostly) empty it again: growth and shrink-by-removal
-        for p in paths.clone().iter().skip(n_paths) {
-            let d = st.fresh_doc(rng);
+        for (bi, p) in paths.clone().iter().skip(n_paths).enumerate() {
+            let mut d = st.fresh_doc(rng);
+            if huge && rng.pct(85) {
+                // a huge project has hundreds of distinct keys, not twenty
+                d.name = format!("N{bi}");
+            }
             let c = Content::Doc(d);
             st.live.insert(pb(p), (p.clone(), c.clone()));
             steps.push(mk(rng, Op::Add { path: p.clone(), content: c }, "bulk_add"));
+        }
+        if huge {
+            // a hub: one file that imports most of the project (and a few look-alikes of it)
+            let keys: Vec<(String, String)> = st.defined_keys();
+            let mut imports: Vec<String> = Vec::new();
+            let mut args: Vec<gen::Arg> = Vec::new();
+            for (i, (p, n)) in keys.iter().enumerate().take(rng.range(126, 150)) {
+                if i % 9 == 0 {
+                    imports.push(format!("a.b.{n}")); // unregistered twin, smaller than the real key
+                }
+                imports.push(format!("{p}.{n}"));
+                if i % 7 == 0 {
+                    args.push(gen::Arg {
+                        dir: Some("in".to_owned()),
+                        ty: gen::Ty::Named(n.clone()),
+                        name: Some(format!("h{i}")),
+                        annots: vec![],
+                    });
+                }
+            }
+            let serial = st.next_serial();
+            let u2 = st.u.clone();
+            let gk2 = st.gk.clone();
+            let mut hub = gen::gen_doc(rng, &u2, &gk2, "hub", "IHub", Kind::Interface, serial);
+            hub.imports = imports;
+            hub.fwd.clear();
+            hub.members = vec![gen::Member::Method {
+                oneway: false,
+                ret: gen::Ty::Void,
+                name: "all".to_owned(),
+                args,
+                code: None,
+                annots: vec![],
+                doc: None,
+            }];
+            let c = Content::Doc(hub);
+            let hp = "hub/IHub.aidl".to_owned();
+            st.live.insert(pb(&hp), (hp.clone(), c.clone()));
+            steps.push(mk(rng, Op::Add { path: hp, content: c }, "hub_file"));
+            steps.push(mk(rng, Op::Validate { times: 1 }, "validate"));
         }
         let mut rm: Vec<String> = paths.iter().skip(n_paths).cloned().collect();
         rng.shuffle(&mut rm);
@@ -721,6 +778,16 @@ pub fn generate(rng: &mut Rng, prop: Prop, thorough: bool) -> (HistScenario, Str
             if rng.pct(70) {
                 let d = st.fresh_doc(rng);
                 let c = st.content_from(rng, d);
+                // real source trees: the path follows package and item name
+                let p = match layout_path(&c) {
+                    Some(lp) if rng.pct(p_layout) => {
+                        if !st.paths.contains(&lp) {
+                            st.paths.push(lp.clone());
+                        }
+                        lp
+                    }
+                    _ => p,
+                };
                 st.disk.insert(disk_slot(&p), c.clone());
                 let tail: Vec<u8> = if rng.pct(30) {
                     "\n// caf\u{e9} 10\u{20ac} \u{1f600}\n".as_bytes().to_vec()
@@ -767,7 +834,26 @@ pub fn generate(rng: &mut Rng, prop: Prop, thorough: bool) -> (HistScenario, Str
             1 => {
                 // perturbation of an existing document
                 let (p, d) = rng.pick(&docs).clone();
-                match rng.below(12) {
+                match rng.below(if observe_every_step { 13 } else { 16 }) {
+                    12..=15 => {
+                        // counter wrap: validate, m real mutations, 2^k - m cheap ones, validate
+                        steps.push(mk(rng, Op::Validate { times: 1 }, "validate"));
+                        let m = rng.range(1, 2);
+                        for _ in 0..m {
+                            let (p2, d2) = rng.pick(&docs).clone();
+                            let mut n = d2.clone();
+                            n.serial = st.next_serial();
+                            n.kind = *rng.pick(&Kind::ALL);
+                            n.members = gen::gen_members(rng, &st.u, &st.gk, n.kind, &n.imports, &n.fwd);
+                            n.oneway = false;
+                            let c = Content::Doc(n);
+                            st.live.insert(pb(&p2), (p2.clone(), c.clone()));
+                            steps.push(mk(rng, Op::Add { path: p2, content: c }, "change_kind"));
+                        }
+                        let pow = *rng.pick(&[256usize, 65536, 65536]);
+                        steps.push(mk(rng, Op::RemoveAbsentMany { n: pow - m }, "remove_absent_many"));
+                        steps.push(mk(rng, Op::Validate { times: 1 }, "validate"));
+                    }
                     10 | 11 => {
                         // broken for a moment, then the very same text again (editor: type, undo)
                         let broken = if rng.pct(50) {
@@ -846,6 +932,15 @@ pub fn generate(rng: &mut Rng, prop: Prop, thorough: bool) -> (HistScenario, Str
             5 => {
                 let p = rng.pick(&st.paths).clone();
                 let d = st.fresh_doc(rng);
+                let p = match layout_path(&Content::Doc(d.clone())) {
+                    Some(lp) if rng.pct(p_layout) => {
+                        if !st.paths.contains(&lp) {
+                            st.paths.push(lp.clone());
+                        }
+                        lp
+                    }
+                    _ => p,
+                };
                 let c = if rng.pct(6) {
                     Content::Raw(rng.pick(&["", " ", "\n", "\n\n\t "]).to_string()) // an empty / blank file
                 } else if rng.pct(4) {
@@ -1080,6 +1175,11 @@ pub fn shrink_candidates(s: &HistScenario) -> (Vec<HistScenario>, usize) {
             out.push(c);
         }
         match &st.op {
+            Op::RemoveAbsentMany { n } if *n > 0 => {
+                let mut c = s.clone();
+                c.steps[i].op = Op::RemoveAbsentMany { n: n / 2 };
+                out.push(c);
+            }
             Op::Warmup { n } if *n > 1 => {
                 let mut c = s.clone();
                 c.steps[i].op = Op::Warmup { n: n * 3 / 4 };
